@@ -105,9 +105,13 @@ func c27Bubble(r *c27Run, cs c27Case) {
 			}
 		}
 	}
+	hsFrom := map[netip.AddrPort]bool{}
 	p.net.onDeliver = func(d *c19Dgram, size int, from netip.AddrPort) {
 		if d.to == c19ServerAddr {
 			recv[from] += size
+			if c27HasHandshakePacket(d.b[:size]) {
+				hsFrom[from] = true
+			}
 		}
 	}
 	p.net.onWrite = func(d *c19Dgram) {
@@ -127,7 +131,11 @@ func c27Bubble(r *c27Run, cs c27Case) {
 		if len(d.b) > 0 && d.b[0]&0xf0 == 0xf0 {
 			r.retry = true
 		}
-		if valid[a] {
+		// Validated = the implementation says so (white-box) AND, black-box, a
+		// datagram carrying a complete Handshake packet has been delivered
+		// from that address (a necessary condition for the implementation's
+		// own rule, so that a conn that lifts its limit too early is caught).
+		if valid[a] && hsFrom[a] {
 			return
 		}
 		slack := 3*recv[a] - sent[a]
@@ -176,6 +184,67 @@ func c27Bubble(r *c27Run, cs c27Case) {
 	wg.Wait()
 	<-done
 	synctest.Wait()
+}
+
+// c27HasHandshakePacket walks the coalesced long-header packets of a datagram
+// in clear text (RFC 9000 section 17.2) and reports whether a complete
+// Handshake packet is among them.
+func c27HasHandshakePacket(b []byte) bool {
+	varint := func(b []byte) (uint64, int) {
+		if len(b) == 0 {
+			return 0, -1
+		}
+		n := 1 << (b[0] >> 6)
+		if len(b) < n {
+			return 0, -1
+		}
+		v := uint64(b[0] & 0x3f)
+		for i := 1; i < n; i++ {
+			v = v<<8 | uint64(b[i])
+		}
+		return v, n
+	}
+	for len(b) > 0 {
+		if b[0]&0x80 == 0 {
+			return false // short header: extends to the end of the datagram
+		}
+		typ := (b[0] >> 4) & 3
+		i := 5 // first byte + version
+		if len(b) < i+1 {
+			return false
+		}
+		i += 1 + int(b[i]) // dcid
+		if len(b) < i+1 {
+			return false
+		}
+		i += 1 + int(b[i]) // scid
+		if typ == 3 {
+			return false // Retry
+		}
+		if typ == 0 { // Initial: token
+			tl, n := varint(b[min(i, len(b)):])
+			if n < 0 {
+				return false
+			}
+			i += n + int(tl)
+		}
+		if i > len(b) {
+			return false
+		}
+		l, n := varint(b[i:])
+		if n < 0 {
+			return false
+		}
+		end := i + n + int(l)
+		if end > len(b) {
+			return false // truncated packet
+		}
+		if typ == 2 {
+			return true
+		}
+		b = b[end:]
+	}
+	return false
 }
 
 func c27Exec(t *testing.T, cs c27Case, dbg func(string)) *c27Run {
@@ -236,7 +305,7 @@ func TestVerif_C27(t *testing.T) {
 		}
 		kSmall := vx.Pick(c, 2, 3)
 		kBig := vx.Pick(c, 1, 2)
-		c.Rule(fmt.Sprintf("fault enumeration over the handshake of two real quic Endpoints (real TLS, synctest bubble, harness-owned network): scenarios = RequireAddressValidation {off,on} x ClientHello {one, two Initial datagrams} x server certificate chain {1, 10 certificates: the server flight exceeds 3x1200 bytes}; per scenario the default run plus every placement of <= k deviations at increasing datagram indices 0..N+2 (both directions), kinds {drop, dup, hold1, late (timer first), trunc to 1199/600/100/1 bytes, spoofed source address}; trunc/spoof only take effect on client->server datagrams; k=%d for the one-datagram-ClientHello scenarios (3 deviations: kinds {drop, late, trunc600, trunc100, spoof}), k=%d for the others; every run lasts 12 s of fake time (past the handshake timeout) so that all server PTOs fire. Monitor at the network, per remote address a: after every datagram the server endpoint writes to a, bytes written to a <= 3 x bytes delivered to the server from a, unless a server conn for a has antiAmplificationLimit==unlimited (white-box, read at the quiescent point). Retry packets and datagrams to the spoofed address are counted. Non-trivial = all deviations took effect and the server came within one full datagram (1200 bytes) of the limit or was seen blocked by it", kSmall, kBig))
+		c.Rule(fmt.Sprintf("fault enumeration over the handshake of two real quic Endpoints (real TLS, synctest bubble, harness-owned network): scenarios = RequireAddressValidation {off,on} x ClientHello {one, two Initial datagrams} x server certificate chain {1, 10 certificates: the server flight exceeds 3x1200 bytes}; per scenario the default run plus every placement of <= k deviations at increasing datagram indices 0..N+2 (both directions), kinds {drop, dup, hold1, late (timer first), trunc to 1199/600/100/1 bytes, spoofed source address} (quick tier: pairs use {drop, dup, late, trunc600, trunc100, spoof}); trunc/spoof only take effect on client->server datagrams; k=%d for the one-datagram-ClientHello scenarios (3 deviations: kinds {drop, late, trunc600, trunc100, spoof}), k=%d for the others; every run lasts 12 s of fake time (past the handshake timeout) so that all server PTOs fire. Monitor at the network, per remote address a: after every datagram the server endpoint writes to a, bytes written to a <= 3 x bytes delivered to the server from a, unless a server conn for a has antiAmplificationLimit==unlimited (white-box, read at the quiescent point) and a datagram carrying a complete Handshake packet (clear-text header walk) was delivered from a. Retry packets and datagrams to the spoofed address are counted. Non-trivial = all deviations took effect and the server came within one full datagram (1200 bytes) of the limit or was seen blocked by it", kSmall, kBig))
 		c.Assume("'validated' is the implementation's own notion (a Handshake packet was processed); an address validated by a Retry token alone is still treated as unvalidated, which is stricter than RFC 9000 requires")
 		c.Assume("stateless resets are not enabled (no StatelessResetKey) and version negotiation is not triggered (both endpoints speak version 1)")
 
@@ -304,7 +373,11 @@ func TestVerif_C27(t *testing.T) {
 		sort.SliceStable(smallS, func(i, j int) bool { return nOf[smallS[i]] < nOf[smallS[j]] })
 		multi("k0", 0, scns, c27Kinds)
 		multi("k1", 1, scns, c27Kinds)
-		multi("k2-small", 2, smallS, c27Kinds)
+		kinds2 := c27Kinds
+		if c.Quick() {
+			kinds2 = []c19Dev{{Kind: "drop"}, {Kind: "dup"}, {Kind: "late"}, {Kind: "trunc", Arg: 600}, {Kind: "trunc", Arg: 100}, {Kind: "spoof"}}
+		}
+		multi("k2-small", 2, smallS, kinds2)
 		if kBig >= 2 {
 			multi("k2-big", 2, bigS, c27Kinds)
 		}
